@@ -679,7 +679,8 @@ def _by_value(text):
     out = []
     for tok in text.split():
         try:
-            out.append(repr(float(tok)))
+            v = float(tok)
+            out.append(repr(0.0 if v == 0 else v))  # 0.0 and -0.0 are equal numbers (C20)
         except ValueError:
             out.append(tok)
     return out
